@@ -271,7 +271,8 @@ func (hm *Manager) GetHooksInOrder(bindingType htypes.BindingType) ([]string, er
 			}
 		}
 
-		sort.Slice(hooks, func(i, j int) bool {
+		// Stable sort: hooks with equal order stay in alphabetical order.
+		sort.SliceStable(hooks, func(i, j int) bool {
 			return hooks[i].Config.OnStartup.Order < hooks[j].Config.OnStartup.Order
 		})
 	}
